@@ -139,8 +139,23 @@ def in_plain_domain(octets: bytes, abort: bool) -> bool:
 
 def corrupt(rng, octets: bytes) -> tuple[bytes, str]:
     """A damaged variant of a well-formed frame; returns (octets, class)."""
-    kind = rng.choice(("bitflip", "truncate", "truncate_after_hcs", "extra", "wrong_length", "swap_fcs", "header_only_cut", "invert_fcs", "invert_hcs_and_fcs", "fcs_plus_one", "tiny_length"))
+    kind = rng.choice(("bitflip", "truncate", "truncate_after_hcs", "extra", "wrong_length", "swap_fcs", "header_only_cut", "invert_fcs", "invert_hcs_and_fcs", "fcs_plus_one", "tiny_length", "short_length_good_fcs_then_more"))
     b = bytearray(octets)
+    if kind == "short_length_good_fcs_then_more":
+        # the length field announces fewer octets than the frame has, every check sequence is right for the octets that are there, and
+        # more octets follow before the flag: the running FCS is 'good' at a place where the frame neither ends nor should end
+        f = hdlc_ref.parse(octets)
+        if f.info:
+            full = hdlc_ref.build(f.format_type, f.segmentation, f.destination, f.source, f.control, f.info)
+            hl = 2 + len(f.destination) + len(f.source) + 1
+            short = max(hl + 2, len(full) - rng.randint(1, 8))
+            fmt = ((f.format_type & 0xF) << 12) | ((1 if f.segmentation else 0) << 11) | short
+            header = bytes((fmt >> 8, fmt & 0xFF)) + full[2:hl]
+            body = header + fcs16_trailer(header) + f.info
+            body += fcs16_trailer(body)
+            more = bytes(x if x not in (FLAG, ESC) else 0x11 for x in rng.randbytes(rng.randint(1, 12)))
+            return body + more, kind
+        kind = "bitflip"
     if kind == "bitflip":
         i = rng.randrange(len(b))
         b[i] ^= 1 << rng.randrange(8)
@@ -206,7 +221,12 @@ def fcs16_trailer(octets: bytes) -> bytes:
 
 
 def noise(rng, n: int, flavour: str | None = None) -> tuple[bytes, str]:
-    flavour = flavour or rng.choice(("random", "dense", "lookalike", "abort", "flagfree", "esc_end", "idle_line", "length_sweep"))
+    flavour = flavour or rng.choice(("random", "dense", "lookalike", "abort", "flagfree", "esc_end", "idle_line", "length_sweep", "short_then_overlong"))
+    if flavour == "short_then_overlong":
+        # a frame that a flag discards (too short / aborted) directly followed by one that grows beyond the maximum length
+        first = rng.choice((b"\x7e\xa0\x7e", b"\x7e\xa0\x0a\x01\x7e", b"\x7e\xa0\x0a\x01\x02\x01\x7d\x7e", b"\x7e\x7e\xa0\x7e"))
+        body = bytes(b if b not in (FLAG, ESC) else 0x12 for b in rng.randbytes(rng.choice((2040, 2050, 2300))))
+        return first + b"\xa0\x2a\x41\x08\x83\x13" + body + b"\x7e", flavour
     if flavour == "length_sweep":
         # a header with correct check sequence whose length field is small - below, at and just above the size of the header itself
         # (so that the announced information field has -2, 0, 1, 2 ... octets) - followed by more octets than any frame may have
